@@ -33,7 +33,11 @@ type Run struct {
 	Scratch  string
 	BinDir   string
 	Replay   string // --replay argument ("" normally)
-	start    time.Time
+	// Race is set during the race-detector pass: binaries are the -race
+	// builds, counts are reduced, children log race reports to RaceDir.
+	Race    bool
+	RaceDir string
+	start   time.Time
 
 	mu            sync.Mutex
 	evaluations   int
@@ -87,10 +91,20 @@ func NewRun(property, tier string, seed int64, replay string) *Run {
 }
 
 // Thorough reports whether the thorough tier runs.
-func (r *Run) Thorough() bool { return r.Tier == "thorough" }
+func (r *Run) Thorough() bool { return r.Tier == "thorough" && !r.Race }
 
 // N picks the tier dependent count.
 func (r *Run) N(quick, thorough int) int {
+	if r.Race {
+		v := quick / 4
+		if v < 6 {
+			v = 6
+		}
+		if v > quick {
+			v = quick
+		}
+		return v
+	}
 	if r.Thorough() {
 		return thorough
 	}
@@ -108,7 +122,15 @@ func (r *Run) Rng(label string) *rand.Rand {
 }
 
 // Bin returns the path of a built binary.
-func (r *Run) Bin(name string) string { return filepath.Join(r.BinDir, name) }
+func (r *Run) Bin(name string) string {
+	if r.Race {
+		p := filepath.Join(r.BinDir, name+"-race")
+		if _, err := os.Stat(p); err == nil {
+			return p
+		}
+	}
+	return filepath.Join(r.BinDir, name)
+}
 
 // Dir creates (if needed) and returns a sub directory of the scratch dir.
 func (r *Run) Dir(parts ...string) string {
